@@ -6,6 +6,7 @@ package main
 import (
 	"fmt"
 	"os"
+	"regexp"
 	"strings"
 	"sync"
 	"time"
@@ -112,6 +113,9 @@ var c13Cfgs = []c13Cfg{
 	{"iife", api.FormatIIFE, false, true, "script"},
 }
 
+// `f()++`, `f() = 1`, `++f()`, `for (f() in x)`
+var c13CallTarget = regexp.MustCompile(`\)\s*(\+\+|--|=($|[^=>])|[-+*/%&|^]=|<<=|>>>?=|\*\*=|in\b|of\b)|(\+\+|--)\s*[\w$.\s]+\(`)
+
 func transformJS(code string, opts api.TransformOptions) (string, bool, []api.Message) {
 	opts.LogLevel = api.LogLevelSilent
 	r := api.Transform(code, opts)
@@ -130,6 +134,7 @@ func c13CheckBatch(c *Check, node *Node, inputs []string, words [][]string, src 
 		v8s, v8m bool
 		onlyMod  bool
 		onlyScr  bool
+		errText  string
 	}
 	items := make([]*item, len(inputs))
 	var sc []synCase
@@ -138,7 +143,11 @@ func c13CheckBatch(c *Check, node *Node, inputs []string, words [][]string, src 
 		if words != nil {
 			it.w = words[i]
 		}
-		it.out, it.ok, _ = transformJS(in, api.TransformOptions{LegalComments: api.LegalCommentsNone})
+		var errs0 []api.Message
+		it.out, it.ok, errs0 = transformJS(in, api.TransformOptions{LegalComments: api.LegalCommentsNone})
+		if len(errs0) > 0 {
+			it.errText = errs0[0].Text
+		}
 		items[i] = it
 		sc = append(sc, synCase{in, "script"}, synCase{in, "module"})
 	}
@@ -149,6 +158,8 @@ func c13CheckBatch(c *Check, node *Node, inputs []string, words [][]string, src 
 		cfg  string
 		goal string
 		out  string
+		// esbuild rejected its own output of this configuration (a violation if the reference engine accepts that output)
+		reparseErr string
 	}
 	var pends []pend
 	for i, it := range items {
@@ -173,7 +184,10 @@ func c13CheckBatch(c *Check, node *Node, inputs []string, words [][]string, src 
 			wantAccept = it.v8s || it.v8m
 		}
 		if wantAccept && !it.ok {
-			if !c13DocumentedReject(it.in, it.v8s, it.v8m) {
+			if it.errText == "Invalid assignment target" && c13CallTarget.MatchString(it.in) {
+				// recorded finding: a call expression as the target of an assignment / update / for-in head
+				c.Violation("call-expression-as-assignment-target-rejected", map[string]interface{}{"kind": "valid-input-rejected", "input": it.in, "v8_script": it.v8s, "v8_module": it.v8m, "source": src})
+			} else if !c13DocumentedReject(it.in, it.v8s, it.v8m) {
 				c.Violation("accept:"+it.in, map[string]interface{}{"kind": "valid-input-rejected", "input": it.in, "v8_script": it.v8s, "v8_module": it.v8m, "source": src})
 			} else {
 				c.Sub("documented_reject", 1)
@@ -231,15 +245,25 @@ func c13CheckBatch(c *Check, node *Node, inputs []string, words [][]string, src 
 					goals = append(goals, "module")
 				}
 			}
+			reparseErr := ""
+			if cfg.name == "preserve-ws" && len(goals) > 0 {
+				// minified whitespace glues tokens together: esbuild must be able to read its own output again
+				if _, okR, errsR := transformJS(o, api.TransformOptions{LegalComments: api.LegalCommentsNone}); !okR {
+					reparseErr = jsonStr(errsR)
+				}
+			}
 			for _, g := range goals {
 				oc = append(oc, synCase{o, g})
-				pends = append(pends, pend{it, cfg.name, g, o})
+				pends = append(pends, pend{it, cfg.name, g, o, reparseErr})
 			}
 		}
 	}
 	ores := syntaxBatch(node, oc)
 	for i, p := range pends {
 		c.Sub("output_syntax_checks", 1)
+		if ores[i] && p.reparseErr != "" {
+			c.Violation("reparse:"+p.cfg+":"+p.it.in, map[string]interface{}{"kind": "output-not-reparsable", "input": p.it.in, "config": p.cfg, "output": p.out, "errors": p.reparseErr, "source": src})
+		}
 		if !ores[i] {
 			if oracleCrashed(p.out) {
 				c.Sub("oracle_crash_skipped", 1)
@@ -360,6 +384,29 @@ func runC13(c *Check) {
 			c13CheckBatch(c, pool.Get(w), ins[lo:hi], nil, "regexp-literals")
 		})
 		c.Set("regexp_literals", map[string]interface{}{"batches_done": done, "batches": nb, "size": len(ins), "atoms": len(atoms), "max_atoms": maxR})
+	}
+	// ---- numeric literals next to punctuators: `a?.5:b` is a conditional, `a?.b` a chain; `1..x`, `1.e3`, `.5.x`, legacy
+	// octal-looking decimals, separators and BigInt suffixes in every position where the previous/next token matters
+	{
+		nums := []string{"0", "1", ".0", ".5", "0.5", ".05", "0.05", "0.025", "5e-7", "1e21", "0x10", "0b1", "0o7", "1n", "1_0", "08", "09.5", "1.", "1.e3", "1.5e+3", "0.0000001"}
+		ctxs := []string{"x = a?N:b;", "x = a ? N : b;", "x = a?N.x:b;", "x = a?.N;", "x = a?.[N];", "x = a+N;", "x = a-N;", "x = a- -N;", "x = a/N;", "x = N/a/N;", "x = N.x;", "x = N .x;", "x = N..x;", "x = (N).x;", "x = N in a;",
+			"x = N?N:N;", "x = [N,N];", "x = {N: a};", "x = a[N];", "x = -N ** 2;", "x = (-N) ** 2;", "x = N ** -N;", "x = a<N>N;", "x = N instanceof a;", "x = a?.x?N:N;", "x = typeof N;", "x = void N;", "x = a?+N:-N;", "x = !N?.5:N;"}
+		var ins []string
+		for _, cx := range ctxs {
+			for _, nm := range nums {
+				ins = append(ins, strings.ReplaceAll(cx, "N", nm))
+			}
+		}
+		const B = 128
+		nb := (uint64(len(ins)) + B - 1) / B
+		c.ForEach(nb, func(w int, bi uint64) {
+			lo, hi := bi*B, (bi+1)*B
+			if hi > uint64(len(ins)) {
+				hi = uint64(len(ins))
+			}
+			c13CheckBatch(c, pool.Get(w), ins[lo:hi], nil, "numeric-adjacency")
+		})
+		c.Set("numeric_adjacency", map[string]interface{}{"size": len(ins), "contexts": len(ctxs), "numbers": len(nums)})
 	}
 	// ---- explicit statement hazards (ASI, directives, labels on rewritten loops, label sets, `in` inside for-initializers)
 	{
